@@ -228,7 +228,7 @@ def match_known(begin, reasons):
     return None
 
 
-def run_rctrace(ctx, path, what, noredecode=False, heap="3g"):
+def run_rctrace(ctx, path, what, noredecode=False, heap="2g"):
     env = {"TRACE": path}
     if noredecode:
         env["NOREDECODE"] = "1"
@@ -409,7 +409,7 @@ def run(ctx):
         jobs = [("rand", [s + i, 160, 4000]) for i in range(10)]
         tffills = 1
     else:
-        jobs = [("rand", [s + i, 900, 4000]) for i in range(48)]
+        jobs = [("rand", [s + i, 400, 4000]) for i in range(32)]
         tffills = 3
 
     def gen(job):
@@ -429,7 +429,7 @@ def run(ctx):
     def val(item):
         what, path = item
         return tlc_file(ctx, path, "C08 " + what)
-    results = vf.parallel(val, files, nproc=10 if tier == "quick" else 12)
+    results = vf.parallel(val, files, nproc=10 if tier == "quick" else 8)
     for (what, path), (rej, nlines) in zip(files, results):
         classify_file(ctx, exe, path, "C08 " + what, rej, nlines, st)
     vf.log("[C08] %d executions / %d op events judged at %.0fs" % (st.execs, st.ops, vf.time.time() - ctx.t0))
